@@ -685,7 +685,7 @@ func ruleBits(p *Prog, r *Report) {
 			r.Undecided("BITS", key, "-", "unresolved anchor")
 			continue
 		}
-		checkFlattener(p, r, f, key, sp.K, sp.N)
+		checkFlattener(p, r, "BITS", f, key, sp.K, sp.N)
 	}
 }
 
@@ -764,7 +764,7 @@ func substInit(a *Aff, depth int) *Aff {
 	return out
 }
 
-func checkFlattener(p *Prog, r *Report, f *ssa.Function, key string, K, N int64) {
+func checkFlattener(p *Prog, r *Report, rule string, f *ssa.Function, key string, K, N int64) {
 	at := p.posStr(f.Pos())
 	// find the flattens array: local Alloc of [K*K]float
 	var flat *ssa.Alloc
@@ -785,7 +785,7 @@ func checkFlattener(p *Prog, r *Report, f *ssa.Function, key string, K, N int64)
 		}
 	})
 	if flat == nil {
-		r.Undecided("BITS", key, at, fmt.Sprintf("no local [%d] array found", K*K))
+		r.Undecided(rule, key, at, fmt.Sprintf("no local [%d] array found", K*K))
 		return
 	}
 	n := 0
@@ -854,16 +854,42 @@ func checkFlattener(p *Prog, r *Report, f *ssa.Function, key string, K, N int64)
 			}
 		}
 	})
+	// copy(flattens[low:], column[:K]) writes the column buffer contiguously: flattens[low+j] = column[j]
+	eachCall(f, func(site ssa.CallInstruction) {
+		c := site.Common()
+		if b, ok := c.Value.(*ssa.Builtin); !ok || b.Name() != "copy" || len(c.Args) != 2 {
+			return
+		}
+		dst := c.Args[0]
+		low := newAff(0)
+		for i := 0; i < 4; i++ {
+			sl, ok := dst.(*ssa.Slice)
+			if !ok {
+				break
+			}
+			if sl.Low != nil {
+				low = low.addScaled(affineOf(sl.Low, 0), 1)
+			}
+			dst = sl.X
+		}
+		if dst != ssa.Value(flat) {
+			return
+		}
+		n++
+		if K > 1 {
+			bad = fmt.Sprintf("copy stores the column buffer contiguously (flattens[%s + j] = column[j]): the block comes out transposed, want %d*j + i", low, K)
+		}
+	})
 	if n == 0 {
 		// the asm path returns directly; a flattener with no store into the result is undecided
-		r.Undecided("BITS", key, at, "no store into the flattened result found")
+		r.Undecided(rule, key, at, "no store into the flattened result found")
 		return
 	}
 	if bad != "" {
-		r.Bad("BITS", key, at, bad)
+		r.Bad(rule, key, at, bad)
 		return
 	}
-	r.OK("BITS", key, at, fmt.Sprintf("flattens[%d*j+i] = column_i[j] for i,j in [0,%d)", K, K))
+	r.OK(rule, key, at, fmt.Sprintf("flattens[%d*j+i] = column_i[j] for i,j in [0,%d)", K, K))
 }
 
 // ---- ORIGIN ---------------------------------------------------------------------------------
@@ -1086,6 +1112,79 @@ func innermostLoop(loops []*Loop, b *ssa.BasicBlock) *Loop {
 	return best
 }
 
+// fillBase follows the slice chain of a destination (dst, dst[a:b], dst[a:b][c:d], …) back to the
+// parameter it was cut from and returns the summed low bounds (the element offset of index 0).
+func fillBase(v ssa.Value) (prm *ssa.Parameter, low *Aff, ok bool) {
+	low = newAff(0)
+	for i := 0; i < 8; i++ {
+		switch x := v.(type) {
+		case *ssa.Parameter:
+			return x, low, true
+		case *ssa.Slice:
+			if x.Low != nil {
+				low = low.addScaled(affineOf(x.Low, 0), 1)
+			}
+			v = x.X
+		default:
+			return nil, nil, false
+		}
+	}
+	return nil, nil, false
+}
+
+// mulCanon maps products of the same two SSA operands onto one representative (go/ssa does no CSE,
+// so i*s written twice is two BinOps).
+type mulCanon map[[2]ssa.Value]*ssa.BinOp
+
+func (mc mulCanon) of(a *Aff) *Aff {
+	o := newAff(a.C)
+	for k, v := range a.Leaf {
+		o.Leaf[k] = v
+	}
+	for k, c := range a.Terms {
+		if b, ok := k.(*ssa.BinOp); ok && b.Op == token.MUL {
+			key := [2]ssa.Value{b.X, b.Y}
+			if fmt.Sprintf("%p", b.X) > fmt.Sprintf("%p", b.Y) {
+				key = [2]ssa.Value{b.Y, b.X}
+			}
+			if rep, ok := mc[key]; ok {
+				k = rep
+			} else {
+				mc[key] = b
+			}
+		}
+		o.Terms[k] += c
+		if o.Terms[k] == 0 {
+			delete(o.Terms, k)
+		}
+	}
+	return o
+}
+
+// resolveLen replaces len(x[a:b]) terms by b-a.
+func resolveLen(a *Aff) *Aff {
+	o := a.clone()
+	for k, c := range a.Terms {
+		call, ok := k.(*ssa.Call)
+		if !ok {
+			continue
+		}
+		if b, ok := call.Call.Value.(*ssa.Builtin); !ok || b.Name() != "len" || len(call.Call.Args) != 1 {
+			continue
+		}
+		sl, ok := call.Call.Args[0].(*ssa.Slice)
+		if !ok || sl.High == nil {
+			continue
+		}
+		delete(o.Terms, k)
+		o = o.addScaled(affineOf(sl.High, 0), c)
+		if sl.Low != nil {
+			o = o.addScaled(affineOf(sl.Low, 0), -c)
+		}
+	}
+	return o
+}
+
 func ruleFill(p *Prog, r *Report) {
 	hash, err := p.HashEntries()
 	if err != nil {
@@ -1093,7 +1192,19 @@ func ruleFill(p *Prog, r *Report) {
 		return
 	}
 	for _, f := range p.LibReach(hash) {
+		// only gray converters: the function must also read image data (have an image-typed parameter)
+		isConv := false
+		for _, q := range f.Params {
+			ts := q.Type().String()
+			if strings.HasPrefix(ts, "*image.") || ts == "image.Image" {
+				isConv = true
+			}
+		}
+		if !isConv {
+			continue
+		}
 		loops := findLoops(f)
+		mc := mulCanon{}
 		type dstStore struct {
 			st  *ssa.Store
 			idx *Aff
@@ -1108,31 +1219,22 @@ func ruleFill(p *Prog, r *Report) {
 			if !ok {
 				return
 			}
-			prm, ok := ia.X.(*ssa.Parameter)
-			if !ok {
+			sl, ok := ia.X.Type().Underlying().(*types.Slice)
+			if !ok || !isFloat(sl.Elem()) {
 				return
 			}
-			sl, ok := prm.Type().Underlying().(*types.Slice)
-			if !ok || !isFloat(sl.Elem()) {
+			prm, low, ok := fillBase(ia.X)
+			if !ok {
+				r.Undecided("FILL", fmt.Sprintf("%s | fill through %s", fnName(f), shortVal(ia.X)), p.posStr(instrPos(st)),
+					"a float buffer is written through a value that is not a slice of a parameter: cannot tell which elements of the recycled buffer are overwritten")
 				return
 			}
 			if innermostLoop(loops, st.Block()) == nil {
 				return
 			}
-			byParam[prm] = append(byParam[prm], dstStore{st, affineOf(ia.Index, 0)})
+			byParam[prm] = append(byParam[prm], dstStore{st, mc.of(low.addScaled(affineOf(ia.Index, 0), 1))})
 		})
 		for prm, stores := range byParam {
-			// only gray converters: the function must also read image data (have an image-typed parameter)
-			isConv := false
-			for _, q := range f.Params {
-				ts := q.Type().String()
-				if strings.HasPrefix(ts, "*image.") || ts == "image.Image" {
-					isConv = true
-				}
-			}
-			if !isConv {
-				continue
-			}
 			key := fmt.Sprintf("%s | fill %s", fnName(f), prm.Name())
 			at := p.posStr(instrPos(stores[0].st))
 			bad := ""
@@ -1161,18 +1263,22 @@ func ruleFill(p *Prog, r *Report) {
 			if bad == "" {
 				if jphi == nil {
 					bad = "destination index does not advance with the innermost loop counter (coefficient 1)"
-				} else if ind, ok := inductionOf(jphi); !ok {
+				} else if ind, ok := inductionOf(jphi); !ok || ind.CmpOn == nil {
 					bad = "innermost loop counter is not a counted induction variable"
 				} else {
+					// the body runs for cmp = phi+d in [init+d, bound) (d = 1 for range loops, which test k+1 < len);
+					// a store at phi+c writes cmp + (c-d)
+					d := ind.CmpOn.C
+					ind.Bound = mc.of(resolveLen(ind.Bound))
 					for c := int64(0); c < ind.Step; c++ {
-						if !offsets[c] {
+						if !offsets[c+d] {
 							bad = fmt.Sprintf("inner loop advances by %d but offset +%d is never written", ind.Step, c)
 						}
 					}
 					if int64(len(offsets)) != ind.Step {
 						bad = fmt.Sprintf("inner loop advances by %d but %d distinct offsets are written", ind.Step, len(offsets))
 					}
-					if k, ok := ind.Init.isConst(); !ok || k != 0 {
+					if k, ok := ind.Init.isConst(); !ok || k+d != 0 {
 						bad = "inner loop does not start at 0"
 					}
 					// row term: the remaining term must be (outer counter * bound of inner loop)
